@@ -43,4 +43,15 @@ def revOkB (Ω : List World) (κ : World → Nat) (R : List Cond) (gp gm : List 
 def revParetoMinB (Ω : List World) (κ : World → Nat) (R : List Cond) (gp gm : List Nat) : Bool :=
   (boxVectors gm).all fun gm' => gm' == gm || !(revOkB Ω κ R gp gm')
 
+/-- componentwise ≤ on vectors of equal length -/
+def leVec : List Nat → List Nat → Bool
+  | [], [] => true
+  | x :: xs, y :: ys => decide (x ≤ y) && leVec xs ys
+  | _, _ => false
+
+/-- all Pareto-minimal c-representations inside the cube `[0..B]^|D|` -/
+def frontInCube (Ω : List World) (D : List Cond) (B : Nat) : List (List Nat) :=
+  let reps := (boxVectors (D.map fun _ => B)).filter (isCRepB Ω D)
+  reps.filter fun η => reps.all fun η' => η' == η || !(leVec η' η)
+
 end InfOCF
